@@ -209,6 +209,9 @@ func (n *LocalNode) startTasks() {
 	// run once
 	n.stabilize()
 	n.fixFinger()
+	if verifManualTasks() {
+		return
+	}
 	n.stopWg.Add(3)
 	// then run periodically
 	go n.periodicStabilize()
